@@ -85,7 +85,7 @@ def gen_fixture(rng, n_files, big=False):
         fx[f"{sub}f{i:02d}.lua"] = gen_lua(rng, rng.randrange(1, 8))
     fx["keep.lua"] = "local keep = 1\n"
     if big:
-        fx["big.lua"] = gen_lua(rng, 1500)     # several write(2) calls / pages
+        fx["big.lua"] = gen_lua(rng, 300)      # several pages
     return fx
 
 
@@ -449,7 +449,7 @@ def fault_plan(base, tier, rng, kills_only=False):
             "close": ["EIO"], "rename": ["EACCES", "ENOSPC"], "unlink": ["EACCES"]}
     for sysname, es in errs.items():
         for k in range(1, counts.get(sysname, 0) + 1):
-            for er in (es if tier == "thorough" else es[:1]):
+            for er in es[:1]:
                 plan.append({"kind": "error", "syscall": sysname, "errno": er, "when": k})
     return plan
 
@@ -490,7 +490,7 @@ def run_fixture(rep, fixture_name, fx, tier, rng, seen, replay_fault=None, light
             limits = list(range(0, top))
         else:
             limits = sorted(set([0, 1, 7] + [s - 1 for s in sizes if s > 0] + sizes
-                                + [rng.randrange(0, top) for _ in range(3 if tier == "quick" else 60)]
+                                + [rng.randrange(0, top) for _ in range(3 if tier == "quick" else 25)]
                                 + ([4096, 4097, 8192] if tier == "thorough" else [])))
             if light:
                 limits = sorted(set([sizes[0] // 2] + [rng.randrange(0, top) for _ in range(3)]))
